@@ -8,6 +8,7 @@ from sa.prov import Prov
 from sa.layout import Layout
 from .common import firmware, protocol_classes, answer_field
 from .c06 import _strip
+from .c04 import _ranges
 from sa.canon import canon_list, canon_list_text, fold_consts
 from sa.layout import _subst_target
 from sa.decide import Walker, return_values, completions, cmp_parts
@@ -511,13 +512,105 @@ def _mm_table(run, F, PV, upd, D):
               "stripping with other options (or not at all, or reordered) changes the block hash the device computes")
     fl = P.func("ledger.block_utils.rlp_first_element_list_payload_length")
     gf = A.cfg(fl, None)
-    ldefs = PV.defs(fl, None).get("L", [])
-    tab = {}
-    for dd in ldefs:
-        tab[norm(dd.value) if dd.kind != "for" else "loop"] = sorted(f.text() for f in F.local(fl, None, dd.cnode))
-    run.check("R5", tab.get("b - 192") == ["b <= 247", "b >= 192"] and tab.get("0") == ["b <= 255", "b >= 248"]
-              and "L << 8 | bs[1 + i]" in tab, "RLP list prefix table", key="rlp_first_element_list_payload_length|table", where=fl.loc(),
-              message=f"RLP list-prefix decoding is {tab}")
+    # the prefix table, one case per value of the first byte (closed under it): short list -> b - 0xC0, long list -> big-endian integer of the
+    # next b - 0xF7 bytes, anything else -> ValueError.  Early returns, chained comparisons, elif ladders all give the same table.
+    bsn = fl.params[0]
+
+    def bev(e, bval):
+        if isinstance(e, ast.Constant):
+            return e.value
+        if isinstance(e, ast.Subscript) and norm(e) == f"{bsn}[0]":
+            return bval
+        if isinstance(e, ast.UnaryOp) and isinstance(e.op, ast.Not):
+            return not bev(e.operand, bval)
+        if isinstance(e, ast.UnaryOp) and isinstance(e.op, ast.USub):
+            return -bev(e.operand, bval)
+        if isinstance(e, ast.BinOp) and type(e.op) in (ast.Add, ast.Sub, ast.LShift, ast.BitOr, ast.BitAnd, ast.Mult):
+            a_, b_ = bev(e.left, bval), bev(e.right, bval)
+            return {ast.Add: lambda: a_ + b_, ast.Sub: lambda: a_ - b_, ast.LShift: lambda: a_ << b_, ast.BitOr: lambda: a_ | b_,
+                    ast.BitAnd: lambda: a_ & b_, ast.Mult: lambda: a_ * b_}[type(e.op)]()
+        if isinstance(e, ast.BoolOp):
+            vs = [bev(v, bval) for v in e.values]
+            return all(vs) if isinstance(e.op, ast.And) else any(vs)
+        if isinstance(e, (ast.List, ast.Tuple)):
+            return [bev(x, bval) for x in e.elts]
+        if isinstance(e, ast.Call) and norm(e.func) == "range" and 1 <= len(e.args) <= 2 and not e.keywords:
+            return range(*[bev(a_, bval) for a_ in e.args])
+        if isinstance(e, ast.Compare):
+            l_ = bev(e.left, bval)
+            for o, c_ in zip(e.ops, e.comparators):
+                r_ = bev(c_, bval)
+                ok_ = {ast.In: lambda: l_ in r_, ast.NotIn: lambda: l_ not in r_, ast.Eq: lambda: l_ == r_, ast.NotEq: lambda: l_ != r_,
+                       ast.Lt: lambda: l_ < r_, ast.LtE: lambda: l_ <= r_, ast.Gt: lambda: l_ > r_, ast.GtE: lambda: l_ >= r_}[type(o)]()
+                if not ok_:
+                    return False
+                l_ = r_
+            return True
+        raise Unknown(norm(e))
+    bad, loops, fornodes = [], set(), set()
+    for bval in range(256):
+        def atom(e, bval=bval):
+            try:
+                return (bool(bev(fold_consts(P, e, fl, None, locals_=set(PV.defs(fl, None)) | set(fl.params)), bval)), True)
+            except (Unknown, KeyError, TypeError):
+                return None
+        leaves = [lf for lf in Walker(A, fl, None, atom, stop_at_for=True).walk(gf.entry) if not (lf.kind == "raise" and lf.node is gf.raise_exit)]
+        try:
+            if bval < 0xC0:
+                ok_ = bool(leaves) and all(lf.kind == "raise" and isinstance(lf.value, ast.Call) and norm(lf.value.func) == "ValueError" for lf in leaves)
+            elif bval <= 0xF7:
+                ok_ = len(leaves) == 1 and leaves[0].kind == "return" and leaves[0].node.ast.value is not None \
+                    and bev(fold_consts(P, leaves[0].deep(leaves[0].node.ast.value), fl, None, locals_=set(fl.params)), bval) == bval - 0xC0
+            else:
+                ok_ = len(leaves) == 1 and leaves[0].kind == "stop" and isinstance(leaves[0].node.ast, ast.For)
+                if ok_:
+                    lf = leaves[0]
+                    loop = lf.node.ast
+                    loops.add(loop)
+                    fornodes.add(lf.node)
+                    it = bev(fold_consts(P, lf.deep(loop.iter), fl, None, locals_=set(fl.params)), bval)
+                    acc = [t.id for st_ in loop.body if isinstance(st_, ast.Assign) for t in st_.targets if isinstance(t, ast.Name)]
+                    ok_ = it == range(bval - 0xF7) and len(acc) == 1 and acc[0] in lf.env and bev(lf.env[acc[0]], bval) == 0
+        except (Unknown, KeyError, TypeError):
+            ok_ = False
+        if not ok_:
+            bad.append(bval)
+    rng = _ranges(bad) if bad else []
+    run.check("R5", not bad, "RLP list prefix table (256 cases)", key="rlp_first_element_list_payload_length|table", where=fl.loc(),
+              message=f"RLP list-prefix decoding deviates for first bytes {[(hex(a_), hex(b_)) for a_, b_ in rng][:4]}: expected ValueError below 0xC0, "
+                      "b - 0xC0 up to 0xF7, and the big-endian integer of the next b - 0xF7 bytes above")
+    okl = len(loops) == 1
+    why_ = f"{len(loops)} loops"
+    if okl:
+        loop = next(iter(loops))
+        iv = loop.target.id if isinstance(loop.target, ast.Name) else None
+        body = [st_ for st_ in loop.body if not (isinstance(st_, ast.Expr) and isinstance(st_.value, ast.Constant))]
+        okl = iv is not None and len(body) == 1 and isinstance(body[0], (ast.Assign, ast.AugAssign))
+        why_ = f"loop body `{'; '.join(norm(x) for x in body)[:80]}`"
+        if okl:
+            st_ = body[0]
+            accn = norm(st_.targets[0]) if isinstance(st_, ast.Assign) else norm(st_.target)
+            val = st_.value if isinstance(st_, ast.Assign) else ast.BinOp(left=ast.Name(id=accn, ctx=ast.Load()), op=st_.op, right=st_.value)
+            shifted = {f"{accn} << 8", f"{accn} * 256", f"256 * {accn}"}
+            nxt = {f"{bsn}[1 + {iv}]", f"{bsn}[{iv} + 1]"}
+            okl = isinstance(val, ast.BinOp) and isinstance(val.op, (ast.BitOr, ast.Add)) and (
+                (norm(val.left) in shifted and norm(val.right) in nxt) or (norm(val.right) in shifted and norm(val.left) in nxt))
+            # after the loop: the accumulated value is returned
+            inbody = {id(y) for x in loop.body for y in ast.walk(x)}
+            after, todo, seen_ = set(), [s_ for ln in fornodes for s_ in gf.succ[ln]], set()
+            while todo:
+                s_ = todo.pop()
+                if s_ in seen_ or s_ is gf.raise_exit:
+                    continue
+                seen_.add(s_)
+                if s_.ast is None or s_.kind not in ("stmt", "cond", "for", "with"):
+                    todo += list(gf.succ[s_])
+                elif id(s_.ast) not in inbody:
+                    after.add(s_)
+            okl = okl and bool(after) and all(n_.kind == "stmt" and isinstance(n_.ast, ast.Return) and n_.ast.value is not None
+                                              and norm(n_.ast.value) == accn for n_ in after)
+    run.check("R5", okl, "long-list length is accumulated big-endian and returned", key="rlp_first_element_list_payload_length|loop", where=fl.loc(),
+              message=f"RLP long-list length: {why_} is not `L = L << 8 | {bsn}[1 + i]` followed by `return L`")
     nd = defs_of(A, fl, "N")
     run.check("R5", len(nd) == 1 and norm(nd[0].value) == "b - 247", "long form length-of-length", key="rlp_first_element_list_payload_length|N", where=fl.loc(),
               message="N is not b - 0xF7")
